@@ -85,6 +85,52 @@ SEEDS = {
  "C20-2": ("C20", "pkg/keystorage/keystorage.go", "DeleteKeySlot checks the last-slot guard only after delete(slots, slotID)",
            "the sequence: reduce to one live slot, attempt the refused delete, then retrieve",
            "pkg/keystorage", "TestSeed2Demo", ["C20"], ""),
+ "C03-1": ("C03", "pkg/state/wrap.go", "coreWrapper.Teardown discards the result of UpdateWithConflicts: the ready flag comes from the resource as read before the update",
+           "a finalizer added between Teardown's Get and its committed Update (the update conflicts and is retried on the newer version)",
+           "pkg/state", "TestSeed1TeardownReadyReflectsFinalizersAtTeardown", ["C03", "C04"],
+           "caught by the C04 check (the Teardown helper is under contract there: [readiness-from-latest-value]); the C03 check itself covers Destroy only"),
+ "C03-2": ("C03", "pkg/state/wrap.go", "waitFinalizersEmpty runs the empty-finalizers check only on Updated events (the initial Created snapshot is ignored)",
+           "the last finalizer removed after the teardown marking but before the helper's Watch is registered",
+           "pkg/state", "TestSeed2TeardownAndDestroyNoMissedWakeup", ["C03"],
+           "'TeardownAndDestroy always completes' is a liveness statement; the helper's event loop is not under contract (an assertion at the end of a loop iteration has no call site to attach to)"),
+ "C09-1": ("C09", "pkg/controller/runtime/internal/qruntime/internal/queue/queue.go", "a Put for an in-flight key stores the value only for the first notification during that hold",
+           "at least two Puts with different values for the same key between Get and Release",
+           "pkg/controller/runtime/internal/qruntime/internal/queue", "TestSeed1OnHoldCoalescesToMostRecentValue", ["C09"],
+           "coalescing to the most recent *value* is listed as not decided: the loop invariant is about keys; the parked value is written on a path without a call site for an assertion"),
+ "C09-2": ("C09", "pkg/controller/runtime/internal/qruntime/internal/queue/queue.go", "Item.Requeue gets a value receiver: the released flag is set on a copy, so Release after Requeue sends a second release",
+           "the interleaving: A holds the key, a Put arrives, A requeues, B gets the key, A's deferred Release fires, another Put arrives, C gets the key while B holds it",
+           "pkg/controller/runtime/internal/qruntime/internal/queue", "TestSeed2ReleaseAfterRequeueKeepsExclusion", ["C09"],
+           "first evaluation: missed (Item methods were not under contract); Requeue/Release now ensure [released-marked] - the contract of (*Item).Requeue also no longer matches any function after the change"),
+ "C13-1": ("C13", "pkg/state/protobuf/client/client.go", "the resume bookmark is taken once per received message (first event) instead of per event",
+           "an aggregated watch, a message holding more than one event, then a second transport failure",
+           "pkg/state/protobuf", "TestSeed1AggregatedWatchRestartMultiEventBatch", ["C13"], ""),
+ "C13-2": ("C13", "pkg/state/impl/inmem/collection.go", "single-resource Watch: the skip-the-bookmarked-event pos++ runs before the bookmark validity check",
+           "a valid bookmark pointing at the newest log entry and an idle outage (nothing written before the client reconnects)",
+           "pkg/state/protobuf", "TestSeed2SingleWatchRestartIdleOutage", ["C13", "C12"],
+           "caught by the C12 check (acceptance window of Watch: [bookmark-accept-exact]); the C13 check covers the client side"),
+ "C14-1": ("C14", "pkg/resource/labels.go", "Labels.matches: early-out `labels.Empty() && Op == Exists` simplified to `labels.Empty()`",
+           "a comparison operator, inverted with NotMatches, on a completely empty label set",
+           "pkg/resource", "TestSeed1InvertedComparisonOnEmptyLabels", ["C14"], ""),
+ "C14-2": ("C14", "pkg/state/impl/inmem/collection.go", "WatchAll event filter: for Updated events the new value is matched against the label queries only (ID query dropped)",
+           "a kind watch carrying an ID query plus an Update of a resource whose ID does not match but whose labels do",
+           "pkg/state/impl/inmem", "TestSeed2FilteredWatchReplayEqualsFilteredList", ["C14", "C02"],
+           "the event-rewriting filter closure of WatchAll is not under contract (filterInPlaceMutating is trusted); C14 claims the selector semantics, not the exactness of filtered views"),
+ "C15-1": ("C15", "pkg/controller/runtime/internal/cache/handler.go", "contextWithTeardown always creates a new waiter channel and overwrites teardownWaiters[id]",
+           "two or more outstanding teardown-bound contexts for the same cached resource while it is running, then a teardown or destroy",
+           "pkg/controller/runtime/internal/cache", "TestSeed1TeardownContextManyReaders", ["C15"],
+           "first evaluation: missed; [registered-waiter-is-kept] was added because of this seed"),
+ "C15-2": ("C15", "pkg/controller/runtime/internal/cache/handler.go", "list takes `resources := h.resources` under the mutex instead of a clone, then filters and copies after unlocking",
+           "a List in flight while the runtime applies a create or destroy event for the same kind",
+           "pkg/controller/runtime/internal/cache", "TestSeed2ListIsASnapshot", ["C15"],
+           "first evaluation: missed; the call-site assertion [snapshot-taken-under-lock] at the Unlock was added because of this seed"),
+ "C17-1": ("C17", "pkg/controller/runtime/internal/dependency/database.go", "GetDependentControllers builds its result with append(db.inputLookup[key], ...) instead of slices.Concat",
+           "a by-kind lookup slice with spare capacity, a by-ID watcher, and interleaved registrations or lookups",
+           "pkg/controller/runtime", "TestSeed1DependentControllersStable", ["C17"],
+           "first evaluation: missed; [notification-list-is-a-copy] was added because of this seed"),
+ "C17-2": ("C17", "pkg/controller/runtime/internal/dependency/database.go", "AddControllerInput scans shifts {0, 1} instead of {-1, 0, 1} around the insertion index",
+           "an existing input with the same namespace/type/ID but a lower kind value (it sits at idx-1)",
+           "pkg/controller/runtime", "TestSeed2ConflictingInputsRejected", ["C17"],
+           "first evaluation: missed; [conflicting-input-rejected] with the scan's loop invariant was added because of this seed (that binary search lands next to an equal-keyed input is an assumption at the call)"),
 }
 
 
